@@ -60,8 +60,10 @@ Lemma skel_SetReplicationModeConfig_ok : skel_SetReplicationModeConfig =
 Proof. reflexivity. Qed.
 
 (* one SaveConfig of all six sections *)
+(* (fix bf6c5d1: the snapshot of the six sections and its write are one step under persistMu - of two overlapping accepted changes the older
+   snapshot could otherwise be stored last) *)
 Lemma skel_opt_Persist_ok : skel_opt_Persist =
-  [Call "SaveConfig"; Ret].
+  [Lock "o.persistMu"; DeferUnlock "o.persistMu"; Call "SaveConfig"; Ret].
 Proof. reflexivity. Qed.
 
 (* defaults, LoadConfig, adjustScheduleCfg, PDServerCfg.MigrateDeprecatedFlags, then the six stores *)
